@@ -45,10 +45,23 @@ ASSUMPTIONS = [
     "`PySlice.indices`/`pyRange`; each is compared with the real library on every run",
     "windows are built from integers (`slice(p, p + e)`, as every nixio caller does); `None` inside a window "
     "slice, NumPy `newaxis`/boolean/array indices and non-integer positions are outside the model",
-    "value broadcasting on assignment is h5py's (runtime); the theorems speak about which elements are addressed",
+    "value broadcasting on assignment is h5py's (runtime); the theorems speak about which elements are addressed. The "
+    "oracle assigns scalar, exactly shaped, broadcast (leading 1s, 1 for an axis, trailing axes), wrongly shaped and "
+    "empty sources and compares the array with NumPy's result (a source NumPy refuses must leave the array unchanged; "
+    "sources of rank >= 1 for a single-element (rank-0) selection are left out: NumPy's answer depends on its version)",
+    "DATA-mode get_slice: floats are exact rationals; positions, extents, offsets, intervals and ticks are drawn from a "
+    "dyadic grid (power-of-two intervals) so that every float operation on nixio's path is exact and a position is on a "
+    "sample or a quarter sample away; the index_of conversions are C07's model (Pure/Dim.lean) with C07's assumptions "
+    "(tolerance band, positive interval); DataFrame-backed dimensions are outside the model",
+    "Generated/ViewShape.lean is produced by a compiler for the Python subset the anchored functions are written in "
+    "(harness/extract/viewshape.py); the compiler and the control-flow interpreters of Pure/ViewGen.lean (loop over "
+    "zip, any(), early return) are trusted to render Python's semantics - they are small, and the compiled functions "
+    "are exercised against the real code through the hand-written model they are proved equal to",
 ]
-TRUSTED_EXTRA = ["no generated tables: the model of data_view.py is hand-written and tied by differential "
-                 "execution (exhaustive over small shapes in the thorough tier)"]
+TRUSTED_EXTRA = ["harness/extract/viewshape.py (Python-subset -> Lean compiler) and Pure/ViewGen.lean (Python built-ins and "
+                 "control-flow interpreters the generated code is written in)",
+                 "the hand-written model of data_view.py / data_array.py index paths is proved equal to the generated code "
+                 "and tied by differential execution (exhaustive over small shapes in the thorough tier)"]
 
 
 
@@ -771,6 +784,10 @@ def correspondence(ctx):
                     "start/extent, rank mismatch, missing extents), reads/writes through views with ints, slices "
                     "(bounds in [-(n+2), n+2] or None, steps None/1/2/3/n+1/n+3), one ellipsis at any position, "
                     "unwrapped single components, surplus indices, a malformed stream (steps 0/-1/-2, two ellipses); "
+                    "integer components divisible by 3 are handed over as numpy integers; "
+                    "get_slice in DATA mode on arrays with sampled / range / set descriptors (scenes of 8 requests: 70% "
+                    "inside, on samples or a quarter sample off; before/after all samples, negative extents, fewer or "
+                    "more descriptors than dimensions, missing/short extents), view and reads through it; "
                     "ranks 1-4, extents 0-9. quick adds the exhaustive enumeration for extents <= 2 (rank 1 complete, "
                     "rank 2 reduced); thorough enumerates all windows x all components for rank 1, extents <= 4, and "
                     "all in-range windows x reduced component pairs for rank 2. Reads return the parent offsets "
@@ -1091,7 +1108,7 @@ def oracle_cases(ctx, full):
     for c in (exhaustive_cases(3, rank2=True, reduced=True) if full else exhaustive_cases(2, rank2=False)):
         if c[0] != "np":
             cases.append(c)
-    n_rand = 40000 if full else 7000
+    n_rand = 40000 if full else 5000
     for _ in range(n_rand):
         shape = gen_shape(rng)
         if rng.random() < 0.3:
@@ -1156,18 +1173,29 @@ def replay_failure(ctx, fj):
 
 READY = True
 MANIFEST = {
-    "level_text": "Kernel-checked theorems over a Lean model of data_view.py and the DataArray index paths: a view is "
+    "level_text": "The bodies of DataView.__init__, _expand_user_slices, _transform_coordinates, _read_data/_write_data, "
+                  "DataArray._read_data (single-value rule) and get_slice are compiled from the Python AST into Lean on "
+                  "every run and proved equal, for all inputs, to the model the theorems are about (an edited comparison, "
+                  "sign, test order, guard or exception class breaks a named theorem). "
+                  "Kernel-checked theorems over a Lean model of data_view.py and the DataArray index paths: a view is "
                   "valid exactly when every window lies inside the array (0 <= start <= stop <= extent) and then "
                   "reads the window; for every valid view and every index tuple of ints, positive-step slices and "
                   "at most one ellipsis the transformed tuple selects, in the parent, exactly NumPy's selection on "
                   "the window shifted by the window start, and it is refused (OutOfBounds/IndexError) exactly when "
                   "NumPy refuses; assignment addresses exactly those elements. Proved per axis from slice.indices "
-                  "lemmas and lifted over tuples of any length by induction. The model is tied to the code by "
+                  "lemmas and lifted over tuples of any length by induction. get_slice in DATA mode is modelled over "
+                  "C07's index_of: the view is the index-mode view on [first sample >= pos, last sample <= pos+ext) per "
+                  "dimension (full strength for range dimensions, under C07's Separated hypothesis for sampled ones), "
+                  "invalid and empty when an extent is negative. The model is tied to the code by "
                   "differential runs on real HDF5 files (exhaustive for small shapes in the thorough tier) and the "
                   "property is checked on the implementation against NumPy on an in-memory copy.",
-    "level_note": "Trusted: Lean kernel; the hand-written model of data_view.py / get_slice / read_data error mapping; "
+    "level_note": "Trusted: Lean kernel; the Python-subset compiler harness/extract/viewshape.py and the interpreters of "
+                  "Pure/ViewGen.lean; the hand-written model where it is not covered by generated code (H5DataSet.read_data "
+                  "error mapping, _get_slice_bydim whose statement shape only is tied); "
                   "stand-ins for CPython slice.indices, NumPy basic indexing and h5py region selection (each compared "
-                  "with the real library every run). Content, broadcasting and dtype conversion are runtime (C01).",
-    "technique": "Lean 4 proof (per-axis slice arithmetic + induction over the index tuple) with differential "
-                 "correspondence and a NumPy oracle",
+                  "with the real library every run). Content, broadcasting of assigned values and dtype conversion are "
+                  "runtime (C01; the oracle compares them with NumPy).",
+    "technique": "Lean 4 proof (per-axis slice arithmetic + induction over the index tuple; composition with C07's "
+                 "order-theoretic index_of theorems) over a model proved equal to Lean code compiled from the Python "
+                 "source, with differential correspondence and a NumPy oracle",
 }
